@@ -134,6 +134,38 @@ STRENGTHENED = {
     'C20-w5-c20-m2': 'platform.system() reporting Windows / Darwin / Linux',
     'C20-w5-c20-m3': 'two devices with the same serial number, one transport each, used in turn; clause RaisesOnlyForACause',
     # ---- round 6 (re-entrancy, iteration protocols, time arithmetic, resource hygiene on error paths, interpreter-level corners)
+    'C01-w7-c01-m2': 'shell / exec_out / streaming_shell with every argument given by position in the documented order, raw output asked for',
+    'C02-w7-c02-m3': 'reported by C15: sendall-style transports (bulk_write returns None) with messages above 64 KiB',
+    'C03-w7-c03-m2': 'a polling transport that reports "nothing yet" 1500 times in a row at one point of the stream, then delivers the rest',
+    'C04-w7-c04-m1': 'pushed directories that contain sub-directories (fixed family)',
+    'C04-w7-c04-m2': 'maxdata above 1 MiB announced by the device, pushes larger than that',
+    'C04-w7-c04-m3': 'generators dropped after a reconnect (`drop` op): nothing may be sent for a stream of the previous connection',
+    'C05-w7-c05-m1': 'a device that challenges again after the public key was offered (pubkey modes reauth / reauth_only)',
+    'C05-w7-c05-m2': 'reported by C13: `available` sampled while connect attempts are in progress',
+    'C06-w7-c06-m3': 'another task on the device is cancelled at a message boundary wherever it is suspended (a canceller that takes every turn of the event loop), not only inside transport calls',
+    'C07-w7-c07-m2': 'pushed directories with sub-directories among the entries: (local file, device path) pairs judged per file',
+    'C07-w7-c07-m3': 'mtime=0 directory pushes on a ticking clock: each DONE carries the time of its own file (lower bound: arrival of the previous SEND)',
+    'C08-w7-c08-m2': 'raising callbacks in a process that turns warnings into errors (ambient `warn_error`, fixed cases)',
+    'C08-w7-c08-m3': 'destination names that merely look like shell syntax ($HOME, a directory literally named ~)',
+    'C09-w7-c09-m1': 'not reachable by a legal device for list/stat (see judgement calls); reported by C10 on pushes',
+    'C09-w7-c09-m3': 'a listing that arrives as one WRITE above 64 KiB over a transport that keeps transfer boundaries',
+    'C10-w7-c10-m1': 'directory pushes in which one file is rejected and later ones are not: the rejection surfaces, nothing is pushed after it',
+    'C11-w7-c11-m1': 'floods of one foreign stream while the deadline runs',
+    'C11-w7-c11-m2': 'a megabyte that trickles in slower than the read timeout allows in total',
+    'C11-w7-c11-m3': 'the untimed authentication wait under foreign traffic; the silence budget now withholds handshake packets too',
+    'C12-w7-c12-m2': 'faulted async runs with one event loop per public call',
+    'C12-w7-c12-m3': 'reported by C01: close() that raises (the transport cannot be closed either) before the reconnect, with late packets parked',
+    'C13-w7-c13-m3': 'monitor clauses C13.NothingSentWhenClosed / C13.RaisesWhenClosed on random schedules of operations racing with close()',
+    'C15-w7-c15-m2': 'a transport that queues the caller\'s object and transmits it at its next call; messages compared with a transport that copies at once',
+    'C15-w7-c15-m3': 'directory push in the failed-write-mid-buffer family; when nothing raised the device must have received exactly the messages of the fault-free run',
+    'C16-w7-c16-m1': 'async sessions with one event loop per public call (ambient `loop_per_call`)',
+    'C16-w7-c16-m2': 'generators created on one connection state and advanced on another (created unconnected, advanced connected, and the reverse)',
+    'C16-w7-c16-m3': 'FileSync requests that do not fit an empty send buffer (paths near the limit), sync and async paired',
+    'C17-w7-c17-m3': 'one signer object asked to sign something that is not 20 bytes long first, then ordinary tokens',
+    'C18-w7-c18-m3': 'the wall clock is stepped forwards / backwards by an hour while a timed read waits for a peer that answers in time',
+    'C19-w7-c19-m2': 'reported by C06: the wanted packet parked under a zero-id pair behind stray packets heading the stream\'s other pairs',
+    'C19-w7-c19-m3': 'reported by C06: a reconnect that fails at transport.connect() while packets of a held generator are parked',
+    'C20-w7-c20-m3': 'two devices on the same port chain behind different buses, one transport each',
     'C01-w6-c01-m3': 'a write that did reach the device although the transport reported a timeout for it, then further commands',
     'C02-w6-c02-m3': 'authenticated handshakes whose public key text is not ASCII (str / bytes / bytearray)',
     'C03-w6-c03-m2': 'unknown command words in headers that announce a payload which is not there',
